@@ -8,7 +8,9 @@
   commute  : operands of `==`, `!=`, `<`/`>` (mirrored), `*`, `^`, `&`, `|` swapped everywhere (behaviour-preserving for numbers, arrays,
              sets and list repetition); a check may answer exit 2 but never exit 1
   enumerate: every `for x in S:` with a plain name target rewritten as `for _k7, x in enumerate(S):`; a check may answer exit 2 but never exit 1
-usage: tools/falsealarm.py [reformat|shift|rename|swapif|commute|enumerate]"""
+  temp     : in every simple statement `X = f(g(...), ...)` / `f(g(...), ...)` the nested call in first position is bound to a fresh local first
+             (`_t9 = g(...)` then `f(_t9, ...)`); a check may answer exit 2 but never exit 1
+usage: tools/falsealarm.py [reformat|shift|rename|swapif|commute|enumerate|temp]"""
 import ast, os, shutil, subprocess, sys, tempfile
 mode = sys.argv[1] if len(sys.argv) > 1 else "reformat"
 
@@ -36,6 +38,36 @@ def enumerate_loops(src):
                 node.iter = ast.Call(func=ast.Name(id="enumerate", ctx=ast.Load()), args=[node.iter], keywords=[])
             return node
     return ast.unparse(ast.fix_missing_locations(T().visit(tree))) + "\n"
+
+
+def introduce_temps(src):
+    tree = ast.parse(src)
+    counter = [0]
+
+    def rewrite_block(body):
+        out = []
+        for st in body:
+            for name in ("body", "orelse", "finalbody"):
+                if isinstance(getattr(st, name, None), list) and not isinstance(st, (ast.ClassDef,)):
+                    setattr(st, name, rewrite_block(getattr(st, name)))
+            for h in getattr(st, "handlers", []) or []:
+                h.body = rewrite_block(h.body)
+            call = None
+            if isinstance(st, ast.Assign) and isinstance(st.value, ast.Call):
+                call = st.value
+            elif isinstance(st, ast.Expr) and isinstance(st.value, ast.Call):
+                call = st.value
+            if call is not None and call.args and isinstance(call.args[0], ast.Call) and not any(isinstance(x, (ast.Lambda, ast.Yield, ast.Await, ast.NamedExpr)) for x in ast.walk(call.args[0])) \
+                    and not isinstance(call.func, ast.Call) and not any(isinstance(a, ast.Starred) for a in call.args):
+                counter[0] += 1
+                nm = f"_t9_{counter[0]}"
+                out.append(ast.copy_location(ast.Assign(targets=[ast.Name(id=nm, ctx=ast.Store())], value=call.args[0]), st))
+                call.args[0] = ast.Name(id=nm, ctx=ast.Load())
+            out.append(st)
+        return out
+    for fn in [f for f in ast.walk(tree) if isinstance(f, (ast.FunctionDef, ast.AsyncFunctionDef))]:
+        fn.body = rewrite_block(fn.body)
+    return ast.unparse(ast.fix_missing_locations(tree)) + "\n"
 
 
 def rename_locals(src):
@@ -119,6 +151,8 @@ try:
                 new = commute(src)
             elif mode == "enumerate":
                 new = enumerate_loops(src)
+            elif mode == "temp":
+                new = introduce_temps(src)
             else:
                 out = ["# moved\n"] * 3 + ["\n"] * 7
                 for line in src.splitlines(keepends=True):
